@@ -592,12 +592,20 @@ func (h *mgrHarness) checkFolded() {
 			if dirty {
 				clause = "folded-state-start-window"
 			}
-			s.Fail("C08", clause, "client #%d (%s) holds %+v after folding %d callbacks into the configuration it was started with, the store holds %+v",
-				in.N, in.Key, got, len(in.CBs), want)
+			s.Fail("C08", clause, "client #%d (%s) holds %s after folding %d callbacks into the configuration it was started with, the store holds %s",
+				in.N, in.Key, showTestNode(got), len(in.CBs), showTestNode(want))
 			return
 		}
 		s.Probe("folded-state-compared")
 	}
+}
+
+// showTestNode renders a configuration for messages (long texts shortened).
+func showTestNode(t TestNode) string {
+	if len(t.Description) > 64 {
+		t.Description = fmt.Sprintf("%s…(%d bytes)", t.Description[:24], len(t.Description))
+	}
+	return fmt.Sprintf("%+v", t)
 }
 
 func sortKids(t *TestNode) {
@@ -723,6 +731,7 @@ func runMgr(prop string) func(s *Sim) {
 		originsFor := func(id string) []string { return []string{"", "web", id, "other", "w"} }
 		nid := 0
 		idles := 0
+		bigLeft := 1
 		for wl.More(12) {
 			switch weighted(wl, []int{5, 3, 3, 2, 3, 2, 6, 2, 2, 2, 1, 4, 1}) {
 			case 12: // more than a minute passes for this writer: what it does next happens after the manager's periodic rescans
@@ -784,15 +793,18 @@ func runMgr(prop string) func(s *Sim) {
 				kids = append(kids, place{p.id, id, typTestKid})
 				pts := data.Points{{Type: "description", Text: "d" + id, Time: nextT()}}
 				affinity = id
-				addOp(fmt.Sprintf("add kid %s under %s", id, p.id), mkNode(id, p.id, typTestKid, pts, "web"))
+				// children are created by other parties or by the client itself (origin = its node id), as real clients do
+				korigin := []string{"web", "web", p.id, "other"}[wl.Draw(4)]
+				addOp(fmt.Sprintf("add kid %s under %s origin=%q", id, p.id, korigin), mkNode(id, p.id, typTestKid, pts, korigin))
 			case 5: // remove / restore a kid
 				if len(kids) == 0 {
 					continue
 				}
 				k := kids[wl.Draw(len(kids))]
 				v := float64(wl.Draw(2))
-				addOp(fmt.Sprintf("tombstone=%v kid %s/%s", v, k.parent, k.id), func(a *Actor) error {
-					return client.SendEdgePoint(a.Nc, k.id, k.parent, data.Point{Type: data.PointTypeTombstone, Value: v, Origin: "web"}, true)
+				korigin := []string{"web", "web", k.parent, ""}[wl.Draw(4)]
+				addOp(fmt.Sprintf("tombstone=%v kid %s/%s origin=%q", v, k.parent, k.id, korigin), func(a *Actor) error {
+					return client.SendEdgePoint(a.Nc, k.id, k.parent, data.Point{Type: data.PointTypeTombstone, Value: v, Origin: korigin}, true)
 				})
 			case 6: // point update on a testNode or kid with some origin (one author per batch)
 				var tgt string
@@ -825,6 +837,11 @@ func runMgr(prop string) func(s *Sim) {
 					}
 					if wl.Chance(1, 8) {
 						p.Tombstone = 1
+					}
+					if p.Type == "description" && origin != "" && origin != owner && bigLeft > 0 && wl.Chance(1, 30) {
+						// a message close to the bus's payload limit (1 MiB): it has to reach the client like any other
+						bigLeft--
+						p.Text = fmt.Sprintf("big%d.%d:", nOps, i) + strings.Repeat("x", 600*1024)
 					}
 					pts = append(pts, p)
 				}
